@@ -709,6 +709,17 @@ func (r *collection) addService(service any, lifetime Lifetime, opts ...AddOptio
 
 	// Handle As option - register under interface types
 	if len(options.As) > 0 {
+		// A function that returns nothing produces no value that could be
+		// provided under an interface. Refused rather than accepted and then
+		// never run: the descriptors made below would not be initializers
+		if descriptor.VoidReturn {
+			return &RegistrationError{
+				ServiceType: descriptor.Type,
+				Operation:   "validate options",
+				Cause:       fmt.Errorf("godi.As cannot be used with a function that returns no service"),
+			}
+		}
+
 		// When As is specified, register the service under each interface type
 		family := make([]*Descriptor, 0, len(options.As))
 		for _, iface := range options.As {
